@@ -79,9 +79,8 @@ Print Assumptions C01_mem_len.
 (* Graph layer, both stores, histories                                 *)
 
 (* THE TIE: what the correspondence check evaluates on the implementation's
-   answers is satisfied by the model on every well-formed case outside the
-   trigger of finding F10b *)
-Theorem C01_spec_ok_model : forall c, wfb c = true -> kf c = 0%N -> spec_ok c (model_obs c) = true.
+   answers is satisfied by the model on every well-formed case *)
+Theorem C01_spec_ok_model : forall c, wfb c = true -> spec_ok c (model_obs c) = true.
 Proof. exact spec_ok_model. Qed.
 Print Assumptions C01_spec_ok_model.
 
@@ -90,7 +89,7 @@ Print Assumptions C01_spec_ok_model.
    pattern a duplicate-free enumeration of exactly the matching triples of the
    set the same history produces on the mathematical quad set *)
 Theorem C01_history : forall c ops,
-  wfb c = true -> c_ops c = ops -> kf c = 0%N ->
+  wfb c = true -> c_ops c = ops ->
   forall g p,
     enum_of (g_triples (w_run (w_init c) ops) g p)
             (filter (matches p) (sp_content (s_run c [] ops) (scid c g))).
@@ -123,12 +122,11 @@ Theorem C01_iadd : forall c w S g h,
 Proof. exact Rel_iadd. Qed.
 Print Assumptions C01_iadd.
 
-Theorem C01_isub_partial : forall c w S g h,
-  Rel c w S -> kf_hit c S (GISub g h) = false ->
-  Rel c (fst (g_isub w g h)) (sp_remove_all (scid c g) (sp_content S (scid c h)) S)
-  /\ snd (g_isub w g h) = false.
+(* full strength, including `g -= g` and two graphs of one SimpleMemory store *)
+Theorem C01_isub : forall c w S g h,
+  Rel c w S -> Rel c (g_isub w g h) (sp_remove_all (scid c g) (sp_content S (scid c h)) S).
 Proof. exact Rel_isub. Qed.
-Print Assumptions C01_isub_partial.
+Print Assumptions C01_isub.
 
 (* readings of the boolean checker *)
 Theorem C01_hobs_ok_reading : forall E probe it ln ps cs,
@@ -150,14 +148,15 @@ Theorem C01_sobs_ok_reading : forall c S S' o probe raised res hs,
 Proof. exact sobs_ok_reading. Qed.
 Print Assumptions C01_sobs_ok_reading.
 
-(* finding F10b: on one SimpleMemory store `g -= g` raises after one removal *)
-Theorem C01_simple_isub_alias_refuted :
-  exists c, wfb c = true /\ kf c = 1%N /\ spec_ok c (model_obs c) = false
-            /\ last (model_obs c) (false, [], []) =
-               (true, [], [([(2, 3, 5)], 1, [[(2, 3, 5)]; []; [(2, 3, 5)]; [(2, 3, 5)]; []; []; [(2, 3, 5)]; []],
-                             [true; false; true; true; false; false; true; false])])%N.
-Proof. exact simple_isub_alias_refuted. Qed.
-Print Assumptions C01_simple_isub_alias_refuted.
+(* former finding F10b (repaired in the code, the model follows the repair): with the
+   historical SimpleMemory.triples, `g -= g` raised after one removal *)
+Theorem C01_hist_simple_isub_alias_refuted :
+  let g := (false, 1, 1)%N in
+  let w := g_add (g_add (w_init f10b_witness) g (1, 3, 5)%N) g (2, 3, 5)%N in
+  snd (g_isub_hist w g g) = true /\ g_triples (fst (g_isub_hist w g g)) g all_pat = [(2, 3, 5)%N]
+  /\ g_triples (g_isub w g g) g all_pat = [].
+Proof. exact hist_simple_isub_alias_refuted. Qed.
+Print Assumptions C01_hist_simple_isub_alias_refuted.
 
 (* non-vacuity: two graphs sharing one Memory store, wildcard remove, -=, ^ *)
 Example C01_nonvacuous :
@@ -166,13 +165,46 @@ Example C01_nonvacuous :
               c_ops := [(GAdd g1 (1, 3, 5), (1, 3, 5)); (GAdd g2 (1, 3, 5), (1, 3, 5)); (GAdd g2 (1, 3, 6), (1, 3, 5));
                         (GRemove g1 (Some 1, None, None), (1, 3, 5)); (GISub g2 g1, (1, 3, 6));
                         (GBin OXor g1 g2, (1, 3, 6))]%N |} in
-  wfb c = true /\ kf c = 0%N /\ spec_ok c (model_obs c) = true
+  wfb c = true /\ spec_ok c (model_obs c) = true
   /\ sp_content (s_run c [] (c_ops c)) (scid c g2) = [(1, 3, 5); (1, 3, 6)]%N.
 Proof. vm_compute. auto. Qed.
 
 (* ------------------------------------------------------------------ *)
-(* Open iterators on the default store (conformance-checked model; what is
-   proved here: the readings of the checker and the F10 witness)        *)
+(* Open iterators on the default store                                 *)
+
+(* SOUNDNESS, for every schedule of opens, steps and mutations: take any iterator
+   (opened by [SOpen c p] after the prefix [pre]; it is iterator number
+   [count_opens pre]) and any later step [o] of it (next() or list()).  The step
+   does not raise, and every triple it yields matches the pattern and was in
+   graph [c] in the state reached after [pre ++ mid1] for some prefix [mid1] of the
+   operations between the open and the step: at some moment between the creation
+   of the iterator and the yield. *)
+Theorem C01_iter_sound : forall pre c p mid o i,
+  (o = SNext i \/ o = SDrain i) -> i = count_opens pre ->
+  let e := last (imodel_obs {| ic_ops := pre ++ SOpen c p :: mid ++ [o] |}) no_obs in
+  ob_st e <> 2%N
+  /\ forall t, In t (ob_ys e) ->
+       matches p t = true
+       /\ exists mid1 mid2, mid = mid1 ++ mid2 /\ In (t, c) (s_state [] (pre ++ SOpen c p :: mid1)).
+Proof. exact iter_sound_explicit. Qed.
+Print Assumptions C01_iter_sound.
+
+(* one step, local form: whatever is yielded matches the pattern and lies in the
+   window; for every pattern other than (?,?,?) it is in the graph in the CURRENT
+   state (leaf present and context test true now) *)
+Theorem C01_iter_step_sound : forall m S it c p W,
+  MemInv m -> HoldsRel m S -> ItRel it (c, p, W) -> WOK S (c, p, W) ->
+  ItRel (snd (it_next m it)) (c, p, W) /\ fst (it_next m it) <> NRaise
+  /\ forall t, fst (it_next m it) = NYield t ->
+       matches p t = true /\ In t W /\ (is_wild p = false -> mem_holds m c t = true).
+Proof. exact next_sound. Qed.
+Print Assumptions C01_iter_step_sound.
+
+(* THE TIE for the iterator suite: the checker that judges the implementation
+   accepts the model on every schedule *)
+Theorem C01_iter_spec_ok_model : forall c, ispec_ok c (imodel_obs c) = true.
+Proof. exact ispec_ok_model. Qed.
+Print Assumptions C01_iter_spec_ok_model.
 
 (* what the iterator checker demands of the yields of one step: they match the
    iterator's pattern and lie in its window ... *)
@@ -188,21 +220,23 @@ Theorem C01_iter_window_reading : forall S c p W t,
 Proof. exact widen_reading. Qed.
 Print Assumptions C01_iter_window_reading.
 
-(* finding F10: the soundness clause is false of the faithful model *)
-Theorem C01_iter_sound_refuted :
-  exists c, ikf c = 1%N /\ ispec_ok c (imodel_obs c) = false
-            /\ last (imodel_obs c) no_obs = (0, false, [(1, 3, 2)], 1)%N.
-Proof. exact iter_sound_refuted. Qed.
-Print Assumptions C01_iter_sound_refuted.
-
-(* no next() of any iterator raises, for every schedule of mutations, opens and
-   steps on the default store (starting from any store that has not yet seen an
-   add, or from any store at all once it has) *)
+(* no next() of any iterator raises (also from stores not reached from the empty one) *)
 Theorem C01_iter_no_raise : forall ops m its,
   Blank m -> Forall (Quiet m) its -> Forall (fun e => ob_st e <> 2%N) (i_run m its ops).
 Proof. exact iter_no_raise. Qed.
 Print Assumptions C01_iter_no_raise.
 
-Theorem C01_iter_no_raise_model : forall c, Forall (fun e => ob_st e <> 2%N) (imodel_obs c).
-Proof. exact iter_no_raise_model. Qed.
-Print Assumptions C01_iter_no_raise_model.
+(* former finding F10 (repaired in the code, the model follows the repair): the
+   historical context test reported a triple that is not stored as a member of the
+   graph of the default contexts; the repaired test does not *)
+Theorem C01_hist_has_ctx_refuted :
+  exists m t c, MemInv m /\ mem_leaf m t = false /\ hist_has_ctx_live m t c = Some true
+                /\ has_ctx_live m t c = Some false.
+Proof. exact hist_has_ctx_refuted. Qed.
+Print Assumptions C01_hist_has_ctx_refuted.
+
+(* the old witness schedule of F10 is now accepted: the iterator ends without yielding (1,3,2) *)
+Example C01_f10_witness_passes :
+  ispec_ok f10_witness (imodel_obs f10_witness) = true
+  /\ last (imodel_obs f10_witness) no_obs = (0, false, [], 1)%N.
+Proof. exact f10_witness_passes. Qed.
